@@ -101,6 +101,8 @@ def oracle_for(_dom):
 def gen_history(rng, adversarial=False, maxfrag=5):
     nseq = rng.choice([1, 1, 2, 2, 3, 4])
     seqids = rng.sample([0, 1, 2, 7, 42, 2**32, 2**64 - 1, rng.randrange(2**64)], nseq)
+    if nseq >= 2 and rng.random() < 0.3:     # two sequences whose ids agree in their low bits
+        seqids[1] = (seqids[0] + 2**rng.choice([8, 16, 31, 32, 48, 63])) % 2**64
     streams = []
     for sid in seqids:
         n = rng.choice([1, 2, 2, 3, 3, 4, maxfrag])
@@ -117,6 +119,8 @@ def gen_history(rng, adversarial=False, maxfrag=5):
             extra.append(e)
         for _ in range(rng.choice([0, 0, 1])):
             extra.append(("A", sid, rng.choice([0, n + 1, n + 7, 2**64 - 1]), b"\xee\xee"))
+        for _ in range(rng.choice([0, 0, 1])):   # an out-of-range id that agrees with a valid one in its low bits
+            extra.append(("A", sid, rng.randrange(1, n + 1) + 2**rng.choice([8, 16, 31, 32, 33, 48, 63]), b"\xee\xee\xee"))
         if adversarial:
             for _ in range(rng.choice([1, 2])):
                 k = rng.choice(["hdr2", "baddata", "zero", "huge"])
